@@ -32,6 +32,7 @@ class Raises:
 
 def const_call(interp: Interp, rel: str, fn: str, args: List[int]):
     """value of a pure integer function on constant arguments: int | Raises | None (not determined)"""
+    interp.current_request = f"{fn}({', '.join(map(str, args))})"
     outs = interp.run_function(rel, fn, [Lin(a) for a in args])
     if len(outs) == 1 and outs[0].kind == "return" and isinstance(outs[0].value, Lin) and outs[0].value.is_const():
         return outs[0].value.const
